@@ -20,6 +20,8 @@ type c02From struct {
 	// WhereKind: 0 the field "v" every point carries; 1 the tag "k" == 'a' and 2 the field "u" >= WhereMin, which only some
 	// points carry (a point without the referenced tag or field is not selected).
 	WhereKind int `json:"where_kind,omitempty"`
+	// Where2Max: a second .where() on the same from(): "v" <= Where2Max (both conditions must hold); -1 = none
+	Where2Max int `json:"second_where_max"`
 }
 
 type c02Task struct {
@@ -27,6 +29,7 @@ type c02Task struct {
 	DBRPs   [][2]string `json:"dbrps"`
 	Froms   []c02From   `json:"froms"`
 	Churned bool        `json:"churned"`
+	Late    bool        `json:"not_started_until_the_churner_starts_it,omitempty"`
 	Script  string      `json:"script"`
 }
 
@@ -55,6 +58,7 @@ type c02Scenario struct {
 	Tasks   []c02Task    `json:"tasks"`
 	Writers [][]c02Write `json:"writers"`
 	Churn   []string     `json:"churn"` // ops: "start:<i>", "stop:<i>", "delete:<i>"
+	OneKey  bool         `json:"all_writes_go_to_one_db_rp_measurement,omitempty"`
 	Config  string       `json:"config"`
 }
 
@@ -80,7 +84,7 @@ func c02Gen(c *Ctx) *c02Scenario {
 		nf := g.Range(1, 3)
 		var sb strings.Builder
 		for k := 0; k < nf; k++ {
-			f := c02From{WhereMin: -1}
+			f := c02From{WhereMin: -1, Where2Max: -1}
 			switch g.Intn(4) {
 			case 0:
 				f.Measurement = ""
@@ -96,6 +100,9 @@ func c02Gen(c *Ctx) *c02Scenario {
 			if g.Chance(1, 4) {
 				f.WhereMin = g.Range(1, 8)
 				f.WhereKind = []int{0, 0, 1, 2}[g.Intn(4)]
+				if g.Chance(1, 3) {
+					f.Where2Max = g.Range(2, 9)
+				}
 			}
 			t.Froms = append(t.Froms, f)
 			sb.WriteString("stream\n    |from()")
@@ -117,6 +124,9 @@ func c02Gen(c *Ctx) *c02Scenario {
 				default:
 					fmt.Fprintf(&sb, ".where(lambda: \"v\" >= %d)", f.WhereMin)
 				}
+				if f.Where2Max >= 0 {
+					fmt.Fprintf(&sb, ".where(lambda: \"v\" <= %d)", f.Where2Max)
+				}
 			}
 			fmt.Fprintf(&sb, "\n    |log().prefix('%s/%d')\n", t.ID, k)
 		}
@@ -130,6 +140,7 @@ func c02Gen(c *Ctx) *c02Scenario {
 	}
 	for i := len(sc.Tasks) - nch; i < len(sc.Tasks); i++ {
 		sc.Tasks[i].Churned = true
+		sc.Tasks[i].Late = g.Chance(1, 3) // enabled only once data is flowing
 	}
 	if nch > 0 {
 		nops := g.Range(1, 8)
@@ -139,6 +150,30 @@ func c02Gen(c *Ctx) *c02Scenario {
 		}
 	}
 	nw := g.Range(1, 3)
+	lateSub := g.Chance(1, 10)
+	// in a quarter of the cases every write goes to one (db, rp, measurement): the routing table sees the same key over and over
+	sc.OneKey = g.Chance(1, 4)
+	oneDB, oneRP, oneM := g.Pick(c02DBs), g.Pick(c02RPs), g.Pick(c02Ms)
+	if lateSub {
+		// one case in ten: a task becomes the first subscriber of a key while one writer keeps writing that key
+		// (another task on other data is a bystander); whatever is written after it has started is owed to it
+		m := oneM
+		if g.Chance(1, 3) {
+			m = "" // an unfiltered from()
+		}
+		late := c02Task{ID: "T1", DBRPs: [][2]string{{oneDB, oneRP}}, Froms: []c02From{{Measurement: m, WhereMin: -1, Where2Max: -1}}, Churned: true, Late: true}
+		late.Script = "stream\n    |from()"
+		if m != "" {
+			late.Script += ".measurement('" + m + "')"
+		}
+		late.Script += "\n    |log().prefix('T1/0')\n"
+		otherDB := c02DBs[0]
+		if otherDB == oneDB {
+			otherDB = c02DBs[1]
+		}
+		by := c02Task{ID: "T0", DBRPs: [][2]string{{otherDB, oneRP}}, Froms: []c02From{{WhereMin: -1, Where2Max: -1}}, Script: "stream\n    |from()\n    |log().prefix('T0/0')\n"}
+		sc.Tasks, sc.Churn, sc.OneKey, nw = []c02Task{by, late}, []string{"start:1"}, true, 1
+	}
 	maxPts := 12
 	if c.Thorough() {
 		maxPts = 40
@@ -152,9 +187,15 @@ func c02Gen(c *Ctx) *c02Scenario {
 			if g.Chance(1, 5) {
 				wr.RP = "" // written without naming a retention policy
 			}
+			if sc.OneKey {
+				wr.DB, wr.RP = oneDB, oneRP
+			}
 			k := g.Range(1, 3)
 			for j := 0; j < k && seq < n; j++ {
 				wr.Points = append(wr.Points, c02Point{M: g.Pick(c02Ms), V: g.Intn(10), S: seq, K: []string{"", "a", "b"}[g.Intn(3)], U: g.Intn(11) - 1})
+				if sc.OneKey {
+					wr.Points[len(wr.Points)-1].M = oneM
+				}
 				seq++
 			}
 			ws = append(ws, wr)
@@ -172,6 +213,9 @@ func (f c02From) selects(db, rp string, p c02Point) bool {
 		return false
 	}
 	if f.Measurement != "" && f.Measurement != p.M {
+		return false
+	}
+	if f.Where2Max >= 0 && p.V > f.Where2Max {
 		return false
 	}
 	if f.WhereMin >= 0 {
@@ -203,9 +247,10 @@ func (t c02Task) declares(db, rp string) bool {
 }
 
 type c02Ack struct {
-	w   int
-	wr  c02Write
-	ack bool
+	w    int
+	wr   c02Write
+	ack  bool
+	call int64 // stamp before the write request was issued
 }
 
 func runC02(c *Ctx) Verdict {
@@ -221,6 +266,7 @@ func runC02(c *Ctx) Verdict {
 
 	var verdict Verdict
 	var acks []c02Ack
+	runningSince := map[int]int64{} // churned task -> stamp at which its last StartTask returned, if nothing stopped it afterwards
 	var d *harness.Daemon
 	res := c.World(cfg, func() {
 		var err error
@@ -241,6 +287,9 @@ func runC02(c *Ctx) Verdict {
 				return
 			}
 			tasks[i] = kt
+			if t.Late {
+				continue
+			}
 			if _, err := d.TM.StartTask(kt); err != nil {
 				verdict = Fail("harness/setup", "start %s: %v", t.ID, err)
 				return
@@ -264,9 +313,10 @@ func runC02(c *Ctx) Verdict {
 						}
 						fmt.Fprintf(&sb, "%s,host=h%d%s w=%di,s=%di,v=%di%s %d\n", p.M, w, tag, w, p.S, p.V, fld, 1000000*(p.S+1))
 					}
+					call := simrt.Stamp()
 					code := d.WriteLine(wr.DB, wr.RP, sb.String())
 					mu.Lock()
-					acks = append(acks, c02Ack{w: w, wr: wr, ack: code == 204})
+					acks = append(acks, c02Ack{w: w, wr: wr, ack: code == 204, call: call})
 					mu.Unlock()
 					if code != 204 {
 						simrt.Count("obs.write_rejected")
@@ -280,7 +330,7 @@ func runC02(c *Ctx) Verdict {
 				defer wg.Done()
 				running := map[int]bool{}
 				for i, t := range sc.Tasks {
-					if t.Churned {
+					if t.Churned && !t.Late {
 						running[i] = true
 					}
 				}
@@ -297,11 +347,13 @@ func runC02(c *Ctx) Verdict {
 						d.TM.StopTask(sc.Tasks[ti].ID)
 						done()
 						running[ti] = false
+						delete(runningSince, ti)
 					case "delete":
 						done := simrt.Expect("DeleteTask(churn)", 2_000_000, 0x7fffffffffff)
 						d.TM.DeleteTask(sc.Tasks[ti].ID)
 						done()
 						running[ti] = false
+						delete(runningSince, ti)
 					case "start":
 						if !running[ti] {
 							t := sc.Tasks[ti]
@@ -313,6 +365,7 @@ func runC02(c *Ctx) Verdict {
 							if err == nil {
 								if _, err := d.TM.StartTask(kt); err == nil {
 									running[ti] = true
+									runningSince[ti] = simrt.Stamp()
 								}
 							}
 						}
@@ -367,11 +420,31 @@ func runC02(c *Ctx) Verdict {
 					interesting = true
 				}
 				if t.Churned {
-					// safety only: observed is a duplicate-free subsequence of expected
+					// safety: observed is a duplicate-free subsequence of expected
 					if cls, msg := c02Subseq(g, e); cls != "" {
 						v := Fail(cls, "churned task %s from#%d writer %d: %s; got %v want-subsequence-of %v", t.ID, k, w, msg, g, e)
 						v.Shape = c02Shape(sc, ti)
 						return v
+					}
+					// ... and a task that was started (again) and not stopped afterwards is a running task: what was written
+					// after its StartTask had returned is owed to it
+					if since, ok := runningSince[ti]; ok {
+						seen := map[int]bool{}
+						for _, s := range g {
+							seen[s] = true
+						}
+						for _, a := range acks {
+							if a.w != w || !a.ack || a.call <= since || !t.declares(a.wr.DB, effRP(a.wr.RP)) {
+								continue
+							}
+							for _, p := range a.wr.Points {
+								if f.selects(a.wr.DB, effRP(a.wr.RP), p) && !seen[p.S] {
+									v := Fail("lost", "task %s was started again while data was flowing and not stopped afterwards; from#%d (%+v) never received writer %d's point s=%d, written after StartTask had returned (got %v)", t.ID, k, f, w, p.S, g)
+									v.Shape = c02Shape(sc, ti)
+									return v
+								}
+							}
+						}
 					}
 					continue
 				}
